@@ -9,6 +9,7 @@ import Lemmas.TieTactics
 import Lemmas.TieLists
 import Proofs.TieImages
 import Proofs.TieSite
+import Proofs.TieShapeDispatch
 import Generated.FnsPacked
 
 namespace PV.Proofs.Tie
@@ -40,7 +41,7 @@ theorem packed_factors_real :
 theorem packed_check_intersection_tie (s : Crystal ℝ) :
     Gen.packed_check_intersection s = s.checkIntersection := by
   unfold Gen.packed_check_intersection Crystal.checkIntersection Crystal.shells
-  simp only [packed_cartesian_positions_tie, packed_relative_positions_tie, periodic_images_tie,
+  simp only [shape_intersects_tie, shape_radius_tie, packed_cartesian_positions_tie, packed_relative_positions_tie, periodic_images_tie,
     cell_a_tie, cell_b_tie, cell_angle_tie, packed_factors_real.1, packed_factors_real.2]
   have hpairs := any_enumerate_skip (fun a b : Shape ℝ => a.intersects b)
     (s.cartPositions.map fun p => s.shape.transform p)
@@ -52,6 +53,6 @@ theorem packed_check_intersection_tie (s : Crystal ℝ) :
 
 theorem packed_score_tie (s : Crystal ℝ) : Gen.packed_score s = s.scoreHard := by
   unfold Gen.packed_score Crystal.scoreHard
-  simp only [packed_check_intersection_tie, packed_total_shapes_tie, cell_area_tie]
+  simp only [packed_check_intersection_tie, packed_total_shapes_tie, cell_area_tie, shape_area_tie]
 
 end PV.Proofs.Tie
